@@ -211,9 +211,29 @@ func VX_C14_tojson() {
 		n = len(fls)
 		P = n
 		names, cols = []string{"f"}, []vxCol{{typ: "float", f: fls}}
+	case "pow2": // powers of two (the lower rounding interval is narrower there) and of ten, limits, their neighbours
+		var fls []float64
+		for _, k := range []int{-1074, -1073, -1023, -1022, -1021, -500, -100, -25, -24, -10, -1, 0, 1, 10, 52, 53, 54, 63, 64, 65, 100, 500, 1000, 1023} {
+			v := math.Ldexp(1, k)
+			fls = append(fls, v, -v)
+			if k%3 == 0 {
+				fls = append(fls, math.Nextafter(v, 0), math.Nextafter(v, math.Inf(1)))
+			}
+		}
+		for _, v := range []float64{1e-5, 1e-7, 1e15, 1e16, 1e17, 1e21, 1e22, 1e23, 9007199254740993, 9007199254740992, 5e-324, 1.7976931348623157e308, 2.2250738585072014e-308, 2.225073858507201e-308, 123456.7, 0.3, 2.5e-8} {
+			fls = append(fls, v)
+		}
+		n = len(fls)
+		P = n
+		names, cols = []string{"f"}, []vxCol{{typ: "float", f: fls}}
 	case "big":
 		// many rows of concrete cells: the text (> 8 KiB) crosses any internal buffer boundary
 		n = 700
+		if vx.HasParam("rowslo") {
+			// a row count picked by the solver from a range around a power of two (buffering by row count)
+			lo, hi := vx.ParamInt("rowslo"), vx.ParamInt("rowshi")
+			n = lo + vxConc(vx.IntN(0, hi-lo), hi-lo+1)
+		}
 		P = n
 		ic := vxCol{typ: "int", i: make([]int, n)}
 		for k := range ic.i {
@@ -239,7 +259,7 @@ func VX_C14_tojson() {
 		k := vxConc(vx.IntN(0, 1), 2) // and the solver picks one of two arrangements
 		ix[0], ix[k*(n-1)] = ix[k*(n-1)], ix[0]
 	}
-	if shape == "digits" {
+	if shape == "digits" || shape == "pow2" {
 		ix = vxIota(n)
 		k := vxConc(vx.IntN(0, n-1), n)
 		ix[0], ix[k] = ix[k], ix[0]
